@@ -463,6 +463,14 @@ pub fn pm_inner(f: &mut dyn FnMut(&[u8])) {
 		let gz3 = codec::gzip(&dir2);
 		emit_root(&dir2, Some(&gz3));
 	}
+	// leaf pointers (run 0) and tile entries whose offset / length reach the end of the 64-bit range
+	for (off, len) in [(u64::MAX - 1, 5u64), (u64::MAX - 2, 2), (u64::MAX / 2, u64::MAX / 2 + 5), (5, u64::MAX - 2), (1u64 << 63, 1u64 << 63), (1 << 40, 10)] {
+		for run in [0u32, 1] {
+			let d = codec::pm_serialize_dir(&[codec::PmEntry { id: 0, offset: off, length: len, run }]);
+			emit_root(&d, Some(&[1, 2, 3, 4, 5, 6, 7, 8]));
+			emit_root(&d, None);
+		}
+	}
 	// a chain of 3 and of 300 nested leaves
 	for n in [3usize, 300, 5000] {
 		let mut leaves: Vec<u8> = vec![];
@@ -573,6 +581,14 @@ pub fn for_each_case(entry: &str, thorough: bool, f: &mut dyn FnMut(&[u8])) {
 			multibyte_long(&[("", "a"), ("\"", "a"), ("a,", "b")], &["\"b", "\"", ""], f);
 		}
 		"csv_file" => {
+			// cells made of digits outside ASCII (Arabic-Indic, fullwidth, Devanagari) in every number shape
+			for d in ["\u{661}", "\u{ff11}", "\u{967}"] {
+				for shape in ["{d}", "-{d}", "{d}.{d}", ".{d}", "-.{d}", "{d}{d}.{d}", "1{d}", "{d}.5", "1.{d}"] {
+					let cell = shape.replace("{d}", d);
+					f(format!("data_id,v\nx,{cell}\n").as_bytes());
+					f(format!("data_id,v\n{cell},1\n").as_bytes());
+				}
+			}
 			for s in ["", "\n", "data_id\n", "data_id,v\n", "data_id,v\nx\n", "data_id,v\nx,1,2\n", "data_id,v\n\"x\"y,1\n", "v\n1\n", "data_id,v\nx,99999999999999999999999\n", "data_id,v\nx,-99999999999999999999999\n", "data_id,v\nx,1.5e\n", "data_id,v\nx,.5\n", "data_id,v\nx,-\n", "data_id,data_id\nx,y\n", "\"data_id\n", "data_id,v\n\u{e9},\u{1F600}\n", "data_id,v\r\nx,1\r\n", ",\n,\n", "data_id,v\nx,18446744073709551616\n", "data_id,v\nx,-9223372036854775809\n", "data_id,v\nx,00000000000000000000000000001\n"] {
 				f(s.as_bytes());
 			}
